@@ -1283,7 +1283,7 @@ def call_const_symbolic(interp: Interp, st: St, o, args, kwargs):
             st.heap[hid] = HObj(o, dict(ba.arguments), fresh=True)
             yield st, ("ok", V("ref", hid))
             return
-    raise Unsupported(f"call of {o!r} on symbolic arguments")
+    raise Unsupported(f"call of {o!r} on symbolic arguments {args!r}")
 
 
 import itertools as _itertools
